@@ -118,6 +118,8 @@ class Interp:
                 raise Unsupported(f"global {name}")
             env.vars[name] = v
             return v
+        if name == "__builtins__":
+            return vars(_builtins)  # in an imported module __builtins__ is the builtins dictionary
         if name in self.native_ns:
             return self.native_ns[name]
         if hasattr(_builtins, name):
@@ -287,6 +289,7 @@ class Interp:
         node = f.node
         self.depth += 1
         self.call_stack.append((self.qualname(f), None))
+        self.ctx.executed.add(self.qualname(f))
         try:
             if isinstance(node, ast.Lambda):
                 return self.eval(node.body, env)
